@@ -53,7 +53,7 @@ func cmdAdsMesh(args []string) {
 	}()
 	// race between an advertisement round and Close: advertisement rounds are slowed down through the public
 	// logger hook so that a Close can land between the listener snapshot and the sending of that service's ad
-	if viol, n, inconcl := runAdsChurn(*seed, *scenarios); inconcl != "" {
+	if viol, n, inconcl := runAdsChurn(col, *seed, *scenarios); inconcl != "" {
 		res.Inconclusive = append(res.Inconclusive, inconcl)
 	} else {
 		for _, v := range viol {
@@ -266,7 +266,8 @@ func runAdsMeshScenario(rng *rand.Rand, idx int) (*adsFinal, string) {
 // runAdsChurn: two real nodes; the owner has four advertised listeners and re-advertises every 30 ms; every
 // "Sending service advertisement" is slowed by 3 ms (logger hook), so a round lasts >= 12 ms. One listener at
 // a time is closed at a random moment; once the peer has dropped it, it must not be listed again while closed.
-func runAdsChurn(seed int64, scale int) (viol []Violation, closes int, inconcl string) {
+func runAdsChurn(col *trace.Collector, seed int64, scale int) (viol []Violation, closes int, inconcl string) {
+	defer col.SetDelay("ad_withdraw", 0)
 	var slow int32 = 1
 	logger.RegisterLogger(func(_ int, format string, _ ...interface{}) {
 		if atomic.LoadInt32(&slow) == 1 && strings.HasPrefix(format, "Sending service advertisement") {
@@ -321,6 +322,13 @@ func runAdsChurn(seed int64, scale int) (viol []Violation, closes int, inconcl s
 	for i := 0; i < total; i++ {
 		s := svcs[rng.Intn(len(svcs))]
 		time.Sleep(time.Duration(rng.Intn(30000)) * time.Microsecond)
+		// every other close: the closing goroutine pauses right after it has stamped the withdrawal (hook point
+		// ad_withdraw, before the cancel is flooded), so that an advertisement round can run at that very moment
+		if i%2 == 1 {
+			col.SetDelay("ad_withdraw", 5*time.Millisecond)
+		} else {
+			col.SetDelay("ad_withdraw", 0)
+		}
 		_ = open[s].Close()
 		closes++
 		if !waitFor(func() bool { return !listed(s) }, 20*time.Second) {
